@@ -100,6 +100,9 @@ IDENTS = ["alpha", "beta_gamma", "count", "name", "kind_of", "x1", "max_len", "i
           "dolor", "sit_amet", "level", "mode", "tag_list", "depth_limit", "v", "w2", "zeta", "r#type", "r#fn", "naïve"]
 VIDENTS = ["Alpha", "BetaGamma", "Unit", "NewT", "Conf", "LoremIpsum", "X", "HttpGet", "Other", "Zed", "r#type", "r#move"]
 
+FEATURE_MIN = {"nonzero": 8, "map_inc": 6, "with_u8_plus1": 6, "with_upper": 6, "with_fail": 4}
+FEATURE_COUNT = {}
+
 receivers = []   # dicts
 types_by_name = {}
 
@@ -153,6 +156,20 @@ def compose_items(r):
     return items
 
 
+def attr_lines(opts, indent):
+    """the options in a random order, in one attribute or split over two or three"""
+    opts = list(opts)
+    rng.shuffle(opts)
+    if len(opts) > 1 and rng.random() < 0.35:
+        k = rng.randint(1, len(opts) - 1)
+        parts = [opts[:k], opts[k:]]
+        if len(parts[1]) > 1 and rng.random() < 0.3:
+            parts = [parts[0], parts[1][:1], parts[1][1:]]
+    else:
+        parts = [opts]
+    return ["%s#[darling(%s)]" % (indent, ", ".join(p)) for p in parts if p]
+
+
 def gen_fields(nf, allow_flatten=True):
     fields = []
     used = set()
@@ -197,7 +214,26 @@ def gen_fields(nf, allow_flatten=True):
                 opts.append('rename = "%s"' % f["rename"])
             base_rust = f["elem"].rust if f["multiple"] else ty.rust
             r2 = rng.random()
-            if base_rust == "u8" and r2 < 0.15:
+            # rare option values must not depend on luck: force each until it has its minimum count
+            need = [k for k in ("nonzero", "map_inc", "with_u8_plus1") if FEATURE_COUNT.get(k, 0) < FEATURE_MIN[k]]
+            if base_rust == "u8" and need and r2 < 0.7:
+                k = need[0]
+                FEATURE_COUNT[k] = FEATURE_COUNT.get(k, 0) + 1
+                if k == "with_u8_plus1":
+                    f["with_"] = "fns::with_u8_plus1"
+                    opts.append("with = fns::with_u8_plus1")
+                else:
+                    f["post"] = ("map", "fns::map_inc") if k == "map_inc" else ("and_then", "fns::nonzero")
+                    opts.append("%s = %s" % (f["post"][0], rng.choice(['"%s"' % f["post"][1], f["post"][1]])))
+            elif base_rust == "String" and FEATURE_COUNT.get("with_upper", 0) < FEATURE_MIN["with_upper"] and r2 < 0.7:
+                FEATURE_COUNT["with_upper"] = FEATURE_COUNT.get("with_upper", 0) + 1
+                f["with_"] = rng.choice(["fns::with_upper", "|m| fns::with_upper(m)"])
+                opts.append("with = %s" % f["with_"])
+            elif not f["multiple"] and FEATURE_COUNT.get("with_fail", 0) < FEATURE_MIN["with_fail"] and r2 > 0.9:
+                FEATURE_COUNT["with_fail"] = FEATURE_COUNT.get("with_fail", 0) + 1
+                f["with_"] = "fns::with_fail"
+                opts.append("with = fns::with_fail")
+            elif base_rust == "u8" and r2 < 0.15:
                 f["with_"] = "fns::with_u8_plus1"
                 opts.append("with = fns::with_u8_plus1")
             elif base_rust == "String" and r2 < 0.15:
@@ -292,11 +328,7 @@ def emit_struct(r, out):
     out.append("pub struct %s {" % r["name"])
     for f in r["fields"]:
         if f["opts"]:
-            if len(f["opts"]) > 1 and rng.random() < 0.3:
-                out.append("    #[darling(%s)]" % f["opts"][0])
-                out.append("    #[darling(%s)]" % ", ".join(f["opts"][1:]))
-            else:
-                out.append("    #[darling(%s)]" % ", ".join(f["opts"]))
+            out.extend(attr_lines(f["opts"], "    "))
         out.append("    pub %s: %s," % (f["ident"], f["ty"].rust))
     out.append("}")
     # Default impl (explicit, non-trivial values where possible) when every field type has Default
@@ -464,7 +496,7 @@ def emit_enum(e, out):
     out.append("pub enum %s {" % e["name"])
     for v in e["variants"]:
         if v["opts"]:
-            out.append("    #[darling(%s)]" % ", ".join(v["opts"]))
+            out.extend(attr_lines(v["opts"], "    "))
         if v["kind"] == "unit":
             out.append("    %s," % v["ident"])
         elif v["kind"] == "newtype":
@@ -473,7 +505,7 @@ def emit_enum(e, out):
             out.append("    %s {" % v["ident"])
             for f in v["fields"]:
                 if f["opts"]:
-                    out.append("        #[darling(%s)]" % ", ".join(f["opts"]))
+                    out.extend(attr_lines(f["opts"], "        "))
                 out.append("        %s: %s," % (f["ident"], f["ty"].rust))
             out.append("    },")
     out.append("}")
@@ -507,7 +539,7 @@ def info_enum(e, out):
 
 # ---------------------------------------------------------------- element-level receivers
 
-ATTR_NAMES = ["my", "conf", "opt", "x_attr", "ns::cfg"]
+ATTR_NAMES = ["my", "conf", "opt", "x_attr", "ns::cfg", "::glob"]
 outer = []          # dicts
 ff_names, fv_names, ft_names = [], [], []
 
@@ -577,7 +609,7 @@ def emit_outer(r, out):
     elif r["fwd"] == "list":
         cattrs.append("forward_attrs(doc, allow)")
     elif r["fwd"] == "list2":
-        cattrs.append("forward_attrs(a::b, doc)")
+        cattrs.append(rng.choice(["forward_attrs(a::b, doc)", "forward_attrs(::allow, a::b, doc)"]))
     elif r["fwd"] == "empty":
         cattrs.append("forward_attrs()")
     if r["rule"]:
@@ -777,7 +809,20 @@ def main():
     out.append("        OuterEntry { info: info_FAW, run: OuterRun::Fa(crate::recv::run_fa::<FAW>), vals: vals_FAW },")
     out.append("    ]")
     out.append("}")
-    open(OUT, "w").write("\n".join(out) + "\n")
+    text = "\n".join(out) + "\n"
+    # the corpus is random but must cover every option and shape the properties quantify over:
+    # refuse to write a corpus that lost one of them
+    REQUIRED = ["fns::nonzero", "fns::map_inc", "with = fns::with_fail", "with = fns::with_upper", "with = |m|", "with = fns::with_u8_plus1",
+                "#[darling(flatten)]", "multiple", "#[darling(skip)]", "skip = true", "skip = false", 'default = "fns::', "#[darling(default)]",
+                "rename_all", 'rename = "', "allow_unknown_fields", "from_ident", "supports(", "forward_attrs", "forward_attrs()", "forward_attrs(doc",
+                "attributes(", "ns::cfg", "::glob", "word", "skip", "word = false", "r#type", "r#move", "na\u00efve", "SpannedValue<F", "WithOriginal<F",
+                "ast::Generics<", "darling::Result<", "and_then = ", "map = ", "ast::Data<", "ast::Fields<", "Vec<syn::Attribute>",
+                "with = fns::attrs_count", "with = fns::attrs_fail", "with = fns::data_kind", "derive(FromTypeParam)", "derive(FromAttributes)",
+                "derive(FromVariant)", "derive(FromField)", "derive(FromDeriveInput)", "HashMap<", "Option<", "Override<", "Flag", "syn::Path", "syn::Expr"]
+    missing = [k for k in REQUIRED if k not in text]
+    if missing:
+        raise SystemExit("corpus lost coverage of: %s — adjust the generator (FEATURE_MIN) and regenerate" % missing)
+    open(OUT, "w").write(text)
     print("structs", n_struct, "enums", n_enum, "outer", counts)
 
 
